@@ -128,6 +128,57 @@ CLAIMED = {
             "every rule caller arrays, get_params and clone/set_params round-trips are checked. Exploration.",
             "integer random_state; decoration re-applied to clones; exact array equality",
             "DESIGN.md section 3, C12"),
+    "C11": ("property-based differential / metamorphic testing (Hypothesis): equivalent ways of specifying the same "
+            "affinity or objective must give bit-identical fitted models",
+            "named kernel/metric with parameters == the harness's scikit-learn matrix passed as 'precomputed' == a callable "
+            "returning it; convenience estimators == generic estimator with the explicit GEMINI instance; RIM(reg=0) and "
+            "SparseLinearMI == generic 'mi'; None == 'mmd_ova'; name == instance; get_gemini() type / ovo / affinity; "
+            "'precomputed' without a matrix raises (known finding D14 for Kauri); KernelRIM's kernel against the training "
+            "points; Kauri named == precomputed; sparse paths named vs precomputed. Exploration.",
+            "exact equality at fit level (same code, same matrix, same seed); path histories to 1e-9 (MMD scores 1e-6*S)",
+            "DESIGN.md section 3, C11"),
+    "C15": ("property-based testing (Hypothesis) of fitted Douglas models with drawn (unsorted) cut points: metamorphic "
+            "mask perturbation, membership invariants, order-agnostic zero-temperature cell rule, definitional oracle for "
+            "find_active_points",
+            "Masked features must be inert bit for bit; leaf_scores_ must have (n_cuts+1)^used rows; bin and leaf "
+            "memberships must be probability vectors at every temperature; at temperature -> 0 predictions must be "
+            "constant inside each grid cell and equal the softmax of one leaf's scores, different cells using different "
+            "leaves; find_active_points must return exactly the features with a cut point strictly inside the data range. "
+            "Exploration.",
+            "query points keep 1e-3 away from cut points for the cell rule; leaf numbering is not assumed",
+            "DESIGN.md section 3, C15"),
+    "C16": ("table-driven and exhaustive enumeration plus property-based testing (Hypothesis) of validation",
+            "Every hyper-parameter of every estimator, GEMINI constructor and validated function is tried with documented "
+            "values (must be accepted) and with meaningless values just outside each interval, wrong types, unknown "
+            "options and inconsistent combinations (must raise ValueError/TypeError-family errors and leave no fitted "
+            "model); all group lists over d<=3 (thorough: d<=4) features are enumerated exhaustively against the reference "
+            "rule; malformed data and calls before fit must raise. Exploration with an exhaustive sub-domain.",
+            "the table encodes the documentation; grey-zone values (bool for int, tuples for lists) are not listed",
+            "DESIGN.md section 3, C16"),
+    "C17": ("property-based testing (Hypothesis) over the stated families of degenerate inputs with the optimiser's "
+            "update_params wrapped to inspect every gradient",
+            "Scaled / offset data, constant and duplicated columns, duplicated samples, n == n_clusters, one cluster, "
+            "batches of one sample, for all estimators x GEMINIs x solvers with default learning rates, through fit, "
+            "path, predict_proba and score: everything learned or returned must be finite and no non-finite gradient may "
+            "reach the optimiser. Exploration.",
+            "only the families named in the property are generated (scale <= 1000, offsets <= 5000)",
+            "DESIGN.md section 3, C17"),
+    "C18": ("property-based metamorphic testing (Hypothesis): predictions of row subsets / permutations / single rows vs "
+            "the whole array",
+            "For fitted inductive estimators and Kauri, predict_proba(X[idx]) must equal predict_proba(X)[idx] (1e-10), "
+            "labels wherever the arg-max is not a numerical tie, routing exactly; training data must reproduce labels_; "
+            "KernelRIM must equal softmax(k(new, train) W + b) with the harness's kernel. Exploration.",
+            "probabilities to 1e-10 (BLAS summation order), labels where the top-two margin exceeds 1e-8",
+            "DESIGN.md section 3, C18"),
+    "C20": ("property-based statistical testing (Hypothesis-generated parameter sets, Kolmogorov-Smirnov and z-tests at a "
+            "1e-9 level against the documented laws, least squares for the dependent block)",
+            "Shapes, label ranges and seed reproducibility; per label the whitened samples of draw_gmm must be standard "
+            "normal (means, variances, correlations, KS) with binomially consistent proportions; Student-t marginals and "
+            "radial law; documented constants of gstm, celeux_one, celeux_two incl. the regression block; invalid mixtures "
+            "must raise. Exploration with a probabilistic oracle.",
+            "per-comparison false-alarm level 1e-9 (deterministic for a fixed seed); detects errors larger than a few "
+            "standard errors at n up to 1.2e5",
+            "DESIGN.md section 3, C20"),
 }
 
 NOT_YET = {}
